@@ -86,4 +86,5 @@ pub fn run(ctx: &'static Ctx) {
     ctx.guard_check("both derivation kinds compared", ctx.classes_matching(|c| c.contains("last=hardened") && c.ends_with(":key")) > 0 && ctx.classes_matching(|c| c.contains("last=normal") && c.ends_with(":key")) > 0, "hardened and normal children were both derived and compared");
     crate::hist::histories(ctx, P, "derivation-histories", "hdk::derive, a sequence on one fresh thread", crate::hist::c03_ops(ctx.seed));
     crate::hist::long_runs(ctx, P, "derivation-long-runs", "hdk::derive, a long run on one fresh thread", if ctx.quick() { 40 } else { 300 }, crate::hist::c03_nth(ctx.seed));
+    crate::hist::under_entropy_answers(ctx, P, "derivation-under-entropy-answers", "hdk::derive with the entropy source scripted", crate::hist::c03_ops(ctx.seed));
 }
